@@ -28,6 +28,7 @@ EXPLANATION = (
     'sizes of the ids. C09.R6 (unsigned wrap): in StringUtil::Trim the loop that decrements the right index is entered '
     'only behind the exit of the loop that establishes that str[left] is not a space (or left > right).')
 EXPLANATION += ' C09.R5 also requires that after traceparent the tracestate Set can only be skipped on the empty() edge of the header string. C09.R7 (re-entrancy): no function-local static of the parse/validate/inject functions is modified after its initialisation.'
+EXPLANATION += ' C09.R8 (bounded regex): every std::regex applied to header bytes either has a finite maximal match length (computed from the pattern by the same normal form as C14.R7) or is reached only behind a size guard - an unbounded quantifier over attacker-sized input recurses without bound in libstdc++.'
 NOT_DECIDED = ('that exactly the W3C-well-formed byte strings are accepted over all inputs; memory safety of HexToBinary\'s '
                'variable-index writes (relational bound buffer_pos < buffer_size).')
 
